@@ -109,15 +109,15 @@ func propC20(c *Ctx) {
 	if fn := c.Fn(x2, "websocket.computeAcceptKey"); fn != nil {
 		h := "crypto/sha1.New()"
 		c.CheckSites(x2, fn, []SiteSpec{
-			{Kind: "call", Target: "iface:hash.Hash.Write", Args: []string{h, "$0"}, Guards: []string{}, Exact: true, N: 1, Why: "the client's key first"},
-			{Kind: "call", Target: "iface:hash.Hash.Write", Args: []string{h, "websocket.KeyGUID"}, Guards: []string{}, Exact: true, N: 1, Why: "then the GUID"},
+			{Kind: "call", Target: "iface:io.Writer.Write", Args: []string{h, "$0"}, Guards: []string{}, Exact: true, N: 1, Why: "the client's key first"},
+			{Kind: "call", Target: "iface:io.Writer.Write", Args: []string{h, "websocket.KeyGUID"}, Guards: []string{}, Exact: true, N: 1, Why: "then the GUID"},
 			{Kind: "call", Target: "iface:hash.Hash.Sum", Args: []string{h, "nil"}, Guards: []string{}, Exact: true, N: 1, Why: "SHA-1 digest of exactly those two writes"},
 			{Kind: "return", Args: []string{"(*encoding/base64.Encoding).EncodeToString(encoding/base64.StdEncoding, iface:hash.Hash.Sum(" + h + ", nil))"}, Guards: []string{}, Exact: true, N: 1, Why: "standard base64 of the digest"},
 		})
 		c.Ordered(x2, fn, []string{"Write(key)", "Write(GUID)", "Sum"}, []func(Site) bool{
-			func(s Site) bool { return s.Target == "iface:hash.Hash.Write" && len(s.Args) == 2 && s.Args[1] == "$0" },
+			func(s Site) bool { return s.Target == "iface:io.Writer.Write" && len(s.Args) == 2 && s.Args[1] == "$0" },
 			func(s Site) bool {
-				return s.Target == "iface:hash.Hash.Write" && len(s.Args) == 2 && s.Args[1] == "websocket.KeyGUID"
+				return s.Target == "iface:io.Writer.Write" && len(s.Args) == 2 && s.Args[1] == "websocket.KeyGUID"
 			},
 			func(s Site) bool { return s.Target == "iface:hash.Hash.Sum" },
 		})
